@@ -1365,6 +1365,9 @@ def run(ctx):
         "reference CBOR reader / encoder harness/ref/cbor_ref.py (RFC 8949), transaction layout harness/ref/ledger_ref.py",
         "an ordinary VerificationKey object holding other than 32 bytes is outside the property (hashes its whole payload)",
         "a zero-length Plutus script offered to add_script_input is read as 'no script offered' (Python truthiness)",
+        "the identifier of a transaction decoded from foreign bytes is judged against the bytes the decoded object "
+        "serializes to (byte-exact re-serialization is the subject of C01/C02)",
+        "typing.get_type_hints is memoised inside pycardano.serialization for the harness process (speed only)",
     ]
     ctx.extra["trusted"] = ["BLAKE2b modelled as an abstract function H (hashlib.blake2b validated against libsodium "
                             "and RFC 7693)", "harness/ref/bech32_ref.py (CIP-14 text form; validated on the CIP-14 vectors)"]
@@ -1373,13 +1376,13 @@ def run(ctx):
     for c in corpus(ctx):
         dispatch(ctx, c)
     q = ctx.budget
-    for i in range(q(500, 20000)):
+    for i in range(q(500, 12000)):
         d = gen_script(rng)
         dispatch(ctx, {"kind": "script", "script": d})
         if i % 2 == 0:
             label, v = rng.choice(variants(rng, d))
             dispatch(ctx, {"kind": "pair", "label": label, "a": d, "b": v})
-    for i in range(q(200, 8000)):
+    for i in range(q(200, 5000)):
         r = rng.random()
         if r < 0.3:
             dispatch(ctx, {"kind": "key", "cls": rng.choice(list(ORD_CLASSES)), "payload": rb(rng, 32).hex()})
@@ -1391,19 +1394,19 @@ def run(ctx):
             dispatch(ctx, {"kind": "key", "derive": "hd", "seed": rb(rng, 32).hex()})
         else:
             dispatch(ctx, {"kind": "key", "cls": rng.choice(list(ORD_CLASSES)), "payload": rb(rng, 64).hex()})
-    for i in range(q(400, 20000)):
+    for i in range(q(400, 15000)):
         dispatch(ctx, {"kind": "datum", "dseed": f"{ctx.seed}-d{i}"})
-    for i in range(q(300, 12000)):
+    for i in range(q(300, 8000)):
         dispatch(ctx, {"kind": "aux", "era": ERAS[i % 3], "aseed": f"{ctx.seed}-a{i}"})
-    for i in range(q(450, 12000)):
+    for i in range(q(450, 5000)):
         dispatch(ctx, {"kind": "tx", "tseed": f"{ctx.seed}-t{i}"})
-    for i in range(q(200, 10000)):
+    for i in range(q(200, 8000)):
         n = rng.choice([0, 1, 5, 31, 32]) if rng.random() < 0.5 else rng.randint(0, 32)
         dispatch(ctx, {"kind": "asset", "policy": rb(rng, 28).hex(), "name": rb(rng, n).hex(),
                        "form": rng.choice("obs") + rng.choice("obs")})
-    for i in range(q(1500, 40000)):
+    for i in range(q(1500, 30000)):
         dispatch(ctx, gen_gate(rng))
-    for i in range(q(150, 3000)):
+    for i in range(q(150, 1500)):
         dispatch(ctx, gen_build(rng))
         if len(ctx.violations) > 20:
             break
